@@ -511,11 +511,33 @@ func (r *c13Run) run() {
 						keep = append(keep, q.o.Oracle.Bech32())
 					}
 				}
+				// sometimes in the very block in which the stake that the removal set free matures (its time has
+				// come, the staking end blocker has not paid it out yet), followed at once by an add-delegate
+				atMaturity := false
+				if ut, err := c.App.StakingKeeper.UnbondingTime(c.Ctx); err == nil && rng.IntN(2) == 0 {
+					if dt := m.removedAt.Add(ut).Sub(c.Time); dt > 0 {
+						if !r.block(dt) {
+							return
+						}
+						atMaturity = true
+						r.res.Count("readmissions_in_the_maturity_block", 1)
+					}
+				}
 				res := c.Msg(&crosschaintypes.MsgUpdateChainOracles{ChainName: spec.Chain, Oracles: keep, Authority: chain.GovAuthority()})
 				r.logf("gov re-admit o%d: %s", i, res.ErrString())
 				if res.OK() {
 					m.removed = false
 					r.res.Count("gov_readmissions", 1)
+					if atMaturity {
+						if rec3, ok := b.K.GetOracle(c.Ctx, o.Oracle.Acc()); ok {
+							r.addDelegate(i, rec3, chain.FX(int64(1+rng.IntN(50))))
+						}
+						r.checkIndexes(fmt.Sprintf("step %d (rejoin in the maturity block)", step))
+						if !r.block(0) {
+							return
+						}
+						c.Msg(&crosschaintypes.MsgWithdrawReward{ChainName: spec.Chain, OracleAddress: o.Oracle.Bech32()})
+					}
 				}
 			}
 		case x < 66: // validator double sign
